@@ -250,6 +250,48 @@ def group_laws(seed, n_per, kinds=('R2', 'R3', 'SE2', 'SE3')):
                 chk(k, 'boxplus_def', okb, dict(data, d=d))
             except Exception as ex:  # noqa
                 chk(k, 'raised %r' % (ex,), False, data)
+        # operations are functions of the CURRENT numbers of their operands: use a pose as the left operand, overwrite its array in place,
+        # use it again -> same as a fresh pose holding the same numbers (no per-object cache of a rotation matrix / of trigonometric values)
+        try:
+            for _ in range(max(2, n_per // 10)):
+                s1, s2, so = safe_vals(rng, k, 'typical'), safe_vals(rng, k, 'typical'), safe_vals(rng, k, 'typical')
+                if k == 'SE2':
+                    s2 = list(s2[:2]) + [rng.uniform(-3, 3)]
+                elif k == 'SE3':
+                    nq = math.sqrt(sum(x * x for x in s2[3:])) or 1.0
+                    s2 = list(s2[:3]) + [x / nq for x in s2[3:]]
+                O = make_pose(k, so)
+                pt = make_pose(POINT[k], safe_vals(rng, POINT[k], 'typical'))
+                darr = np.array(cp.gen_arr(rng, C[k], 'typical'))
+                ops = {'oplus': lambda q: (q + O).to_array(), 'oplus_point': lambda q: (q + pt).to_array(), 'boxplus': lambda q: (q + darr).to_array(),
+                       'ominus': lambda q: (q - O).to_array(), 'ominus_rev': lambda q: (O - q).to_array(), 'inverse': lambda q: q.inverse.to_array(),
+                       }
+                if hasattr(make_pose(k, list(s1)), 'to_matrix'):
+                    ops['to_matrix'] = lambda q: np.asarray(q.to_matrix()).reshape(-1)
+                P = make_pose(k, list(s1))
+                for f in ops.values():
+                    f(P)
+                np.ndarray.__setitem__(P, slice(None), np.array(s2, dtype=np.float64))
+                fresh = make_pose(k, [float(x) for x in np.asarray(P)])
+                for nm, f in ops.items():
+                    a_, b_ = np.asarray(f(P), dtype=np.float64), np.asarray(f(fresh), dtype=np.float64)
+                    chk(k, 'no_object_history_' + nm, a_.shape == b_.shape and np.allclose(a_, b_, rtol=0, atol=1e-12 * (1 + float(np.abs(b_).max()))),
+                        {'a': [float(x) for x in np.asarray(P)], 'b': so, 'first_values_of_the_same_object': list(s1), 'stale': a_.tolist(), 'fresh': b_.tolist()})
+            # raw ndarray right operands of integer dtype (a point (3, -2), an increment (1, 2, 0), np.zeros(n, dtype=int)) mean the same numbers
+            A = make_pose(k, safe_vals(rng, k, 'typical'))
+            ip = np.array([rng.randint(-4, 4) for _ in range(len(np.asarray(make_pose(POINT[k], safe_vals(rng, POINT[k], 'typical')))))])
+            ii = np.array([rng.randint(-1, 1) for _ in range(C[k])])
+            if k == 'SE3':
+                ii[3:] = 0
+            for nm, iv in (('integer_point', ip), ('integer_increment', ii), ('integer_zero_increment', np.zeros(C[k], dtype=int))):
+                if len(iv) == len(ip) and nm != 'integer_point' and C[k] == len(ip):
+                    pass
+                r_int = np.asarray(A + iv, dtype=np.float64)
+                r_flt = np.asarray(A + iv.astype(np.float64), dtype=np.float64)
+                chk(k, nm, r_int.shape == r_flt.shape and np.allclose(r_int, r_flt, rtol=0, atol=1e-12 * (1 + float(np.abs(r_flt).max()))),
+                    {'a': [float(x) for x in np.asarray(A)], 'right_operand': iv.tolist(), 'dtype': str(iv.dtype), 'with_int': r_int.tolist(), 'with_float': r_flt.tolist()})
+        except Exception as ex:  # noqa
+            chk(k, 'raised %r' % (ex,), False, {'sequence': 'object history / integer operands'})
         # the identity element is a VALUE: accumulating onto a pose obtained from identity() (dead reckoning: acc = identity(); acc += step)
         # must not change what identity() returns afterwards, nor an earlier copy of it
         try:
